@@ -15,7 +15,7 @@ import Mathlib.Algebra.Order.Field.Basic
 
 open Matrix
 
-namespace GT
+namespace GT.Act
 
 variable {K : Type*} [Field K] {n k : ℕ}
 
@@ -96,4 +96,4 @@ def ProjEq (x y : Fin n → K) : Prop := ∃ c : K, c ≠ 0 ∧ x = c • y
 /-- … up to a *positive* scalar (what in-place normalisation does) -/
 def PosProjEq [LinearOrder K] (x y : Fin n → K) : Prop := ∃ c : K, 0 < c ∧ x = c • y
 
-end GT
+end GT.Act
